@@ -1,5 +1,6 @@
 import JSL.Inv.EnvReach
 import JSL.Props.Example
+import JSL.Inv.ShiftEnv
 
 /-!
 # C12 — simulated time is monotone, event-exact and (without outages) translation-invariant
@@ -13,8 +14,15 @@ import JSL.Props.Example
 * a forced jump from such a state strictly advances time (`c12_forced_jump_strict`);
 * `jump_by_one` is not event-exact (`c12_jump_by_one_overshoots`, why it is excluded from the
   admissible actions; nothing in the environment uses it);
-* translation invariance: **false when outages are configured** – the time since an outage last
-  struck is measured from the absolute instant 0 (`c12_outage_absolute_zero`).
+* translation invariance, for instances on which no outage is configured (`NoOutages`): one
+  `state.step` (`c12_translation_invariant_step`), `reset` (`c12_translation_invariant_reset`), a
+  whole run through the middleware under any agent behaviour (`c12_translation_invariant_run`) and
+  `env.step` apart from the terminal reward (`c12_translation_invariant_env_step`) started `δ` later
+  give exactly the outcome with every timestamp moved by `δ` and nothing else changed – stochastic
+  durations included (the sampled values do not depend on the clock);
+* it is **false when outages are configured** – the time since an outage last struck is measured
+  from the absolute instant 0 (`c12_outage_absolute_zero`) – and the terminal reward reads the
+  absolute clock (`c12_terminal_reward_reads_clock`).
 -/
 
 namespace JSL
@@ -136,5 +144,53 @@ theorem c12_outage_absolute_zero :
       (do let since ← outageSince (now + d) (.inactive none); pure (shouldApply orc (fun _ => 0) (.det f) since).1) := by
   refine ⟨5, 100, 10, by decide, ?_⟩
   simp [outageSince, shouldApply, bind, Except.bind, pure, Except.pure]
+
+/-! ### translation invariance without outages -/
+
+/-- **One step of the state machine is translation-invariant**: from the state with every
+timestamp moved by `δ`, the same action gives the result with every timestamp (returned state,
+sub-states, post-state of every applied transition) moved by `δ`; action, success and done flags,
+offers, update counters and the raised error are the same. -/
+theorem c12_translation_invariant_step (hno : NoOutages inst) (δ : Int) (cfg : SMConfig) (fuel : Nat) (s : State)
+    (r : Rng) (a : Action) :
+    smStep orc inst cfg fuel (shiftState δ s) r a =
+      (smStep orc inst cfg fuel s r a).map (fun p => (shiftResult δ p.1, p.2.1, p.2.2.map (shiftState δ))) :=
+  smStep_shift δ hno orc cfg fuel s r a
+
+/-- `reset` from the initial state moved by `δ` -/
+theorem c12_translation_invariant_reset (hno : NoOutages inst) (δ : Int) (ec : EnvCfg) (s : State) (r : Rng) :
+    envReset orc inst ec (shiftState δ s) r =
+      (envReset orc inst ec s r).map (fun p => ({ p.1 with res := shiftResult δ p.1.res }, p.2.map (shiftState δ))) :=
+  envReset_shift δ hno orc ec s r
+
+/-- **A whole run is translation-invariant**: `reset`, then any sequence of agent actions (accept,
+decline, outside the space) through the middleware – started `δ` later, every state of every
+result is the one of the original run moved by `δ`; offers, flags, bookkeeping and errors agree. -/
+theorem c12_translation_invariant_run (hno : NoOutages inst) (δ : Int) (cfg : SMConfig) (mc : MwCfg) (fuel : Nat)
+    (s0 : State) (r : Rng) (as : List AgentAct) :
+    mwRun orc inst cfg mc fuel (shiftState δ s0) r as =
+      (mwRun orc inst cfg mc fuel s0 r as).map
+        (fun p => ((shiftResult δ p.1.1, p.1.2.map (shiftState δ)), p.2.map (Except.map (shiftEntry δ)))) :=
+  mwRun_shift δ hno orc cfg mc fuel s0 r as
+
+/-- `env.step`, everything but the reward: flags, makespan (moved by `δ`), states, counters -/
+theorem c12_translation_invariant_env_step (hno : NoOutages inst) (δ : Int) (ec : EnvCfg) (st : RewardStatic)
+    (e : EnvState) (a : AgentAct) :
+    (envStep orc inst ec st (shiftEnv δ e) a).map StepOut.noReward =
+      (envStep orc inst ec st e a).map (fun o => (shiftStepOut δ o).noReward) :=
+  envStep_shift_noReward δ hno orc ec st e a
+
+/-- the terminal reward is not translation-invariant: it reads the absolute clock -/
+theorem c12_terminal_reward_reads_clock :
+    sparseReward ⟨1, 0, 0⟩ ⟨2, 0, 1, 1⟩ (0 + 1) true false ≠ sparseReward ⟨1, 0, 0⟩ ⟨2, 0, 1, 1⟩ 0 true false :=
+  sparseReward_reads_clock
+
+/-- the decidable form printed on the `G` line of every scenario by both sides -/
+theorem c12_no_outages_checker_sound (h : noOutagesB inst = true) : NoOutages inst := by
+  simp only [noOutagesB, Bool.and_eq_true, List.all_eq_true, List.isEmpty_iff] at h
+  exact ⟨h.1, h.2⟩
+
+/-- non-vacuity: the example instance has no outage configured, and moving by 0 is the identity -/
+example : NoOutages Ex.inst ∧ shiftState 0 Ex.s0 = Ex.s0 := ⟨⟨by decide, by decide⟩, shiftState_zero _⟩
 
 end JSL
